@@ -1331,3 +1331,72 @@ class SumModel(Model):
 
 
 ALL = ALL + [SumModel]
+
+
+# ---------------------------------------------------------------------------
+SEMCMP = z3.Function("SEMCMP", U, U, IntS)
+CURVER = z3.Const("SEDPACK_VERSION", U)
+
+
+class VersionModel(Model):
+    """semver (A-SEMVER): Version.parse(a).compare(b) is the sign of the
+    semver-2.0 precedence order; sedpack.__version__ is the running version."""
+
+    def axioms(self):
+        a = z3.Const("a!sv", U)
+        b = z3.Const("b!sv", U)
+        return [z3.ForAll([a], SEMCMP(a, a) == 0, patterns=[SEMCMP(a, a)]),
+                z3.ForAll([a, b], z3.And(SEMCMP(a, b) >= -1,
+                                         SEMCMP(a, b) <= 1,
+                                         SEMCMP(a, b) == -SEMCMP(b, a)),
+                          patterns=[SEMCMP(a, b)])]
+
+    def dotted_value(self, st, d, node):
+        if d == "sedpack.__version__":
+            return VU(CURVER)
+        return None
+
+    def call_dotted(self, st, d, node):
+        if d == "semver.Version.parse":
+            v = self.eng.eval(st, node.args[0])
+            out = VU(v.t)
+            out.semver = True
+            return out
+        if d == "logging.getLogger":
+            return VModule("logger")
+        return NotImplemented
+
+    def call_other_method(self, st, recv, name, node):
+        if isinstance(recv, VU) and name == "compare" and getattr(
+                recv, "semver", False):
+            other = self.eng.coerce(st, self.eng.eval(st, node.args[0]), "U")
+            return VInt(SEMCMP(recv.t, other))
+        return NotImplemented
+
+    def setattr(self, st, obj, attr, v, line):
+        """Assignment to a property whose getter contract is
+        `result is <expr>`: the setter stores into <expr> (setter bodies are
+        compared with this reading by tools/check_classes.py)."""
+        eng = self.eng
+        if attr == "_logger":
+            return True
+        if eng.reg.field_owner(obj.cls, attr) is not None:
+            return False
+        pfc = eng.reg.find_method(obj.cls, attr)
+        if pfc is not None and pfc.is_property:
+            for cl in pfc.ensures:
+                t = cl.text.strip()
+                if t.startswith("result is "):
+                    tgt = ast.parse(t[len("result is "):], mode="eval").body
+                    saved = st.locals
+                    st.locals = dict(saved)
+                    st.locals["self"] = obj
+                    try:
+                        eng.assign(st, tgt, v)
+                    finally:
+                        st.locals = saved
+                    return True
+        return False
+
+
+ALL = ALL + [VersionModel]
